@@ -650,6 +650,12 @@ def _never_cached(fn, rc, rid):
 UNS = 'fim/user/network_service.py'
 AP = 'fim/graph/abc_property_graph.py'
 MUTANTS = [
+    {'name': 'disconnect-removes-foreign-port', 'file': 'fim/user/network_service.py', 'rule': 'R6',
+     'find': "        if peers[0].node_id not in self.topo.graph_model.get_all_ns_or_link_connection_points(link_id=self.node_id):\n            raise TopologyException(f'Interface {interface} is not connected to network service {self.name}')\n",
+     'replace': ""},
+    {'name': 'unpeer-any-path', 'file': 'fim/user/network_service.py', 'rule': 'R5',
+     'find': "        if len(sp) != 5 or not self.__is_service_port(sp[1]) or not self.__is_service_port(sp[-2]):",
+     'replace': "        if len(sp) == 0:"},
     {'name': 'sub-interfaces-not-disconnected-on-node-removal', 'file': 'fim/user/topology.py', 'rule': 'R4',
      'find': "        for i in [x for top in self.nodes[name].interface_list for x in (top,) + tuple(top.interface_list)]:", 'replace': "        for i in self.nodes[name].interface_list:"},
     {'name': 'child-interface-removed-without-disconnect', 'file': 'fim/user/interface.py', 'rule': 'R4',
